@@ -62,9 +62,9 @@ def design(ctx, names):
 def gen_cases(ctx, names, parts=None, nrandom=None):
     """(b) TLC enumerates the plan families and random nested plans."""
     if parts is None:
-        parts = ["matrix012", "values1", "values2", "mutate", "forms"]
+        parts = ["matrix012", "values2", "mutate", "forms"]
         if not ctx.quick:
-            parts += ["matrix3", "matrix4", "values3"]
+            parts += ["matrix012b", "values1", "matrix3", "matrix4", "values3"]
     if nrandom is None:
         nrandom = 1500 if ctx.quick else 20000
     cases, seen, roots = [], set(), None
@@ -89,12 +89,20 @@ def gen_cases(ctx, names, parts=None, nrandom=None):
         per[part] = n
 
     big = "FALSE" if ctx.quick else "TRUE"
-    for part in parts:
-        take(ctx.tlc("AsmGen", GEN_CFG % (big, part, fnset(names)), workers=1, timeout=900), part)
-    if nrandom:
-        depth = 50
-        take(ctx.tlc("AsmGen", GEN_CFG % ("TRUE", "random", fnset(names)), workers=1, timeout=900,
-                     simulate="num=%d" % max(1, nrandom // depth), depth=depth), "random")
+    import concurrent.futures as cf
+
+    def gen(part):
+        import time
+        time.sleep(0.3 * (list(parts) + ["random"]).index(part))      # ctx.tlc numbers its directories without a lock
+        if part == "random":
+            depth = 50
+            return ctx.tlc("AsmGen", GEN_CFG % ("TRUE", "random", fnset(names)), workers=1, timeout=900,
+                           simulate="num=%d" % max(1, nrandom // depth), depth=depth)
+        return ctx.tlc("AsmGen", GEN_CFG % (big, part, fnset(names)), workers=1, timeout=900)
+    todo = list(parts) + (["random"] if nrandom else [])
+    with cf.ThreadPoolExecutor(4) as ex:
+        for part, r in zip(todo, ex.map(gen, todo)):
+            take(r, part)
     if roots is None:
         raise Infra("generator did not print the roots table")
     for k, c in enumerate(cases):
@@ -148,7 +156,7 @@ def locus_str(b):
     loc = b["loc"]
     where = "%s(%s)" % (fn, ",".join(kinds))
     if b["kind"] == "wrong-value":
-        return "sem/%s/%s/got-%s" % (where, loc[1], loc[2])
+        return "sem/%s/arg1-%s/%s/got-%s" % (fn, b.get("arg1", "none"), loc[1], loc[2])
     if b["kind"] == "panic":
         return "panic/%s/%s" % (loc[0], where)
     if b["kind"] == "nondeterministic":
@@ -198,7 +206,7 @@ def judge_once(ctx, cases):
     if hang is not None:
         return [{"api": "asm.Plan.Execute", "kind": "hang", "locus": "hang/" + node_text(hang.get("plan", {}))[:60],
                  "witness": node_text(hang.get("plan", {})), "case": hang, "depth": 0, "plan": hang.get("plan", {})}], 0
-    res = ctx.validate("TraceAsm", tp, cfg=TRACE_CFG, chunk=4000 if ctx.quick else 6000, timeout=1500)
+    res = ctx.validate("TraceAsm", tp, cfg=TRACE_CFG, chunk=2500 if ctx.quick else 6000, timeout=1500)
     ctx.cov["evaluations"] += res["n"] * 9
     cells = getattr(ctx, "_cells", set())
     cells.update(res["hits"].keys())
@@ -210,8 +218,9 @@ def judge_once(ctx, cases):
             lines = open(tp, "rb").readlines()
         ev = json.loads(lines[b["i"] - 1])
         case = {"plan": ev["plan"], "root": ev["root"], "bare": ev.get("bare", False)}
-        detail = {"text": ev.get("text"), "root": root_name(ev["root"]), "runs": [r["r"] + (":" + r.get("m", "") if r.get("m") else "") for r in ev["runs"]],
-                  "str": ev["str"]["r"], "simp": ev["simp"]["r"]}
+        detail = {"text": ev.get("text"), "root": root_name(ev["root"]), "runs": [("=run1" if r.get("eq") else r.get("r", "?") + (":" + r["m"] if r.get("m") else "")) for r in ev["runs"]],
+                  "str": "=run1" if ev["str"].get("eq") else ev["str"].get("r"), "simp": "=run1" if ev["simp"].get("eq") else ev["simp"].get("r"),
+                  "str_m": ev["str"].get("m")}
         recs.append({"api": "asm.Plan.Execute", "kind": b["kind"], "locus": locus_str(b), "witness": node_text(ev["plan"]),
                      "case": case, "detail": detail, "depth": b["depth"], "plan": ev["plan"]})
     return recs, res["n"]
@@ -268,6 +277,14 @@ def main(ctx):
     recs = judge(ctx, cases)
     for r in recs:
         ctx.add(r["api"], r["kind"], r["locus"], r["witness"], case=r["case"], detail=r.get("detail"))
+    if os.environ.get("VERIF_DEBUG"):
+        seen = {}
+        for r in sorted(recs, key=lambda r: verif.wsize(r["witness"])):
+            seen.setdefault((r["kind"], r["locus"]), []).append(r)
+        for k, v in sorted(seen.items()):
+            log("GROUP", k, len(v))
+            for r in v[:3]:
+                log("    ", r["witness"], "|", r["detail"]["root"][:40], r["detail"]["runs"], r["detail"]["str"], r["detail"]["simp"], r["detail"]["text"], r["detail"].get("str_m"))
     for k in range(0, len(cases), max(1, len(cases) // 6)):
         ctx.sample({"plan": node_text(cases[k]["plan"]), "root": root_name(cases[k]["root"]), "family": cases[k].get("src")})
     ctx.cov["distinct_nontrivial"] = len(getattr(ctx, "_cells", ()))
